@@ -352,7 +352,7 @@ impl Property for Lex {
     }
     fn budget(&self, tier: Tier) -> Budget {
         Budget {
-            cases: tier.pick(400_000, 20_000_000),
+            cases: tier.pick(4_000_000, 20_000_000),
             tape_len: 400,
         }
     }
